@@ -44,7 +44,7 @@ def run(out, tier, seed):
                 "unseals on every backend; TLC validates each result against Claims.tla; distinct = distinct (expression, claims, time config); "
                 "non-trivial = expression has at least one combinator or the claims have a time point within one leeway of now")
     d = C.ensure_dir(os.path.join(C.BUILD, "c11"))
-    r = C.tlc("Gen_Claims", "Gen_Claims_%s.cfg" % tier, "gen", "c11-gen", workers=6, timeout=3600)
+    r = C.tlc("Gen_Claims", "Gen_Claims_%s.cfg" % tier, "gen", "c11-gen", workers=6 if tier == "quick" else 14, timeout=7200)
     C.tlc_must_pass(r, "Gen_Claims")
     out.add_tlc(r)
     exprs = [json.loads(json.loads('"' + m + '"')) for m in re.findall(r'<<"EXPR", "(.*)">>', r.out)]
@@ -66,7 +66,7 @@ def run(out, tier, seed):
     f = os.path.join(d, "obs.ndjson")
     p = C.harness(["obs-claims", "--cases", cases, "--out", f, "--tier", tier, "--seed", str(seed)], timeout=7200)
     out.extra["harness"] = json.loads(p.stdout.strip().splitlines()[-1])
-    obs.validate(out, "Obs_Claims", f, "c11-obs", classify, workers=10)
+    obs.validate(out, "Obs_Claims", f, "c11-obs", classify, workers=10 if tier == "quick" else 14, timeout=10800)
     out.extra["negative_control_rejected"] = obs.negative_control("Obs_Claims", f, "c11", corrupt, k=6, seed=seed)
     nt = set()
     with open(f) as fh:
